@@ -440,6 +440,21 @@ func factsTokens(t *T) (string, error) {
 		return "", err
 	}
 
+	// parseListMailbox: is a string (quoted / literal) recognised before the list-char atom?
+	if f, err := t.ParseFile("imap/command/list.go"); err == nil {
+		fd := FuncDecl(f, "", "parseListMailbox")
+		if fd == nil {
+			unknown("list_mailbox_string_first", "func parseListMailbox in imap/command/list.go")
+		} else {
+			norm := strings.Join(strings.Fields(t.Src("imap/command/list.go", fd.Body)), " ")
+			i := strings.Index(norm, "p.TryParseString()")
+			j := strings.Index(norm, "p.MatchesWith(isListChar)")
+			fmt.Fprintf(&sb, "Definition list_mailbox_string_first : bool := %v.\n", i >= 0 && j >= 0 && i < j)
+		}
+	} else {
+		return "", err
+	}
+
 	// handleStartTLS sends the NO response when TLS is not configured?
 	if src, err := t.ReadFile("internal/session/handle_starttls.go"); err == nil {
 		norm := strings.Join(strings.Fields(src), " ")
